@@ -14,7 +14,7 @@ for diff in sys.argv[1:]:
         print("####", diff, "PATCH-DOES-NOT-APPLY", flush=True); continue
     cache = os.path.join(V, "build", "eval_cache")
     shutil.rmtree(cache, ignore_errors=True)
-    env = dict(os.environ); env["VERIF_EVAL_CACHE"] = cache
+    env = dict(os.environ); env["VERIF_EVAL_CACHE"] = cache; env["VERIF_BUILD"] = os.path.join(V, "build", "matrix_build")
     row = {}
     for pid in props:
         p = subprocess.run([os.path.join(V, "check"), pid, "--tier", "quick"], cwd=V, capture_output=True, text=True, env=env)
